@@ -100,10 +100,16 @@ impl Elem {
     /// whitespace-only text between elements dropped. Used to compare fragments as subtrees.
     pub fn canon(&self) -> String {
         let mut s = String::new();
-        self.canon_into(&mut s);
+        self.canon_into(&mut s, false);
         s
     }
-    fn canon_into(&self, s: &mut String) {
+    /// as `canon`, with leading/trailing whitespace of every text node removed
+    pub fn canon_trimmed(&self) -> String {
+        let mut s = String::new();
+        self.canon_into(&mut s, true);
+        s
+    }
+    fn canon_into(&self, s: &mut String, trim: bool) {
         let _ = write!(s, "<{{{}}}{}", self.ns.as_deref().unwrap_or(""), self.local);
         let mut attrs: Vec<_> = self
             .attrs
@@ -119,12 +125,16 @@ impl Elem {
         let has_elem = self.children.iter().any(|n| matches!(n, Node::Elem(_)));
         for n in &self.children {
             match n {
-                Node::Elem(e) => e.canon_into(s),
+                Node::Elem(e) => e.canon_into(s, trim),
                 Node::Text(t) => {
                     if has_elem && t.trim().is_empty() {
                         continue;
                     }
-                    let _ = write!(s, "{t:?}");
+                    if trim {
+                        let _ = write!(s, "{:?}", t.trim());
+                    } else {
+                        let _ = write!(s, "{t:?}");
+                    }
                 }
                 _ => {}
             }
